@@ -241,6 +241,22 @@ def fam_plain_aux(quick=True):
         yield ("plainaux/doneverb/%s" % ctx, dict(tick=0.125, inits=list(ENV_INITS), framers=framers), dict())
 
 
+    # hand-over: original aux x is HELD by the active frame a while a transition tries to enter p > q; the target is
+    # enterable only if x sits on at most one of p, q (it is released by a's exit), whoever holds it at the time
+    for xkind in ("repeat1", "never"):
+        for mask in range(1, 8):
+            for target in ("q", "p"):
+                for back in ("a", "r"):
+                    on = dict(a=mask & 1, p=mask & 2, q=mask & 4)
+                    def fr(nm, over=None, extra=()):
+                        return dict(name=nm, over=over, items=recs(nm, ctxs) + ([("aux", "x")] if on.get(nm) else []) + list(extra))
+                    frames = [fr("a", None, [("go", target, [E0])]), fr("p", None, [("go", back, [E1])]), fr("q", "p"),
+                              fr("r", None, [("go", "a", [E0]), ("go", "q", [E1])])]
+                    framers = [dict(name="m", schedule="active", frames=frames), aux_framer("x", xkind)]
+                    yield ("plainaux/handover/%s/mask%d/to-%s/back-%s" % (xkind, mask, target, back),
+                           dict(tick=0.125, inits=list(ENV_INITS), framers=framers), dict())
+
+
 # ------------------------------------------------------------------------------- C10 conditional auxiliaries
 
 def fam_cond_aux():
@@ -351,6 +367,15 @@ def fam_clocks(ticks):
                            dict(tick=tick, inits=[], framers=[dict(name="m", schedule="active", frames=main),
                                                               dict(name="x", schedule="aux", frames=frames)]),
                            dict(tick=tick, T=T, N=N, clocked=("x",)))
+                    # the same chain as a CLONE of a moot framer (named and insular): implicit timeout / repeat
+                    # conditions must read the clone's own clocks
+                    if tick in (0.125, 0.1) and T in Ts[:6:2] + [Ts[-1]] and N in (0, 2, 5):
+                        for tag, clname in (("c1", "m_c1"), ("mine", "m_mo1")):
+                            main = [dict(name="f0", items=recs("f0", ctxs) + [("auxclone", "mo", tag)])]
+                            yield ("clocks/%r/%s/T%r/N%d/clone-%s" % (tick, cname, T, N, tag),
+                                   dict(tick=tick, inits=[], framers=[dict(name="m", schedule="active", frames=main),
+                                                                      dict(name="mo", schedule="moot", frames=frames)]),
+                                   dict(tick=tick, T=T, N=N, clocked=(clname,)))
 
 
 # ------------------------------------------------------------------------------- C04 bids and fiats
@@ -464,6 +489,28 @@ def fam_markers():
                   dict(name="B", items=recs("B", ctxs) + [("go", "A", [(kind, "x", None, None, False)])])]
         yield ("markers/%s/negated" % kind,
                dict(tick=0.125, inits=[("x", 0)], framers=[dict(name="m", schedule="active", frames=frames)]), dict())
+
+
+    # BOTH kinds on the same share, same mark key, same `in frame`: each kind needs its own entry marker in that frame
+    for (k1, k2) in (("updated", "changed"), ("changed", "updated")):
+        for inA in ("me", "A"):
+            for by in (None, "mk"):
+                n1 = (k1, "x", inA, by, False)
+                n2 = (k2, "x", inA, by, False)
+                for shape in ("same-frame", "two-frames"):
+                    if shape == "same-frame":
+                        frames = [dict(name="A", items=recs("A", ctxs) + [("go", "B", [n1, E0]), ("go", "C", [n2])]),
+                                  dict(name="B", items=recs("B", ctxs) + [("go", "A", [E0])]),
+                                  dict(name="C", items=recs("C", ctxs) + [("go", "A", [E0])])]
+                    else:
+                        if inA == "me":
+                            continue
+                        frames = [dict(name="A", items=recs("A", ctxs) + [("go", "B", [n1])]),
+                                  dict(name="B", items=recs("B", ctxs) + [("go", "A", [E0])]),
+                                  dict(name="C", items=recs("C", ctxs) + [("go", "A", [n2])])]
+                        frames[1]["items"].append(("go", "C", [("cmp", "x", "==", 2, None, False)]))
+                    yield ("markers/both/%s-%s/%s/%s-%s" % (k1, k2, shape, inA, by),
+                           dict(tick=0.125, inits=[("x", 0), ("env.e0", 0)], framers=[dict(name="m", schedule="active", frames=frames)]), dict(xe=True))
 
 
 # ------------------------------------------------------------------------------- C12 clones
@@ -778,6 +825,23 @@ def fam_markers_guarded():
                           dict(name="B", items=[("let", [E0])] + recs("B", ("benter",) + ctxs) + [("go", "A", [(kind, "x", None, by, False)])])]
                 yield ("markers-guarded/%s/%s/%s" % (kind, inframe, by),
                        dict(tick=0.125, inits=[("x", 0), ("env.e0", 0)], framers=[dict(name="m", schedule="active", frames=frames)]), dict())
+
+
+def fam_markers_refused_aux():
+    """a conditional auxiliary whose condition is a marker need and whose first frame is guarded (e1): a REFUSED start
+    must not run the transit actions that reset the mark, so the pending update still starts the aux once e1 opens."""
+    ctxs = ("enter", "exit")
+    XE1 = [None, {"x": 1}, {"x": 2}, {"env.e1": 1}, {"env.e1": 0}, {"x": 1, "env.e1": 1}]
+    for kind in ("updated", "changed"):
+        for inframe in (None, "me"):
+            for by in (None, "mk"):
+                n = (kind, "x", inframe, by, False)
+                frames = [dict(name="A", items=recs("A", ctxs) + [("auxif", "ax", [n]), ("go", "B", [E0])]),
+                          dict(name="A1", over="A", items=recs("A1", ctxs + ("recur",))),
+                          dict(name="B", items=recs("B", ctxs) + [("go", "A", [E0])])]
+                yield ("markers-refused-aux/%s/%s/%s" % (kind, inframe, by),
+                       dict(tick=0.125, inits=[("x", 0), ("env.e0", 0), ("env.e1", 0)],
+                            framers=[dict(name="m", schedule="active", frames=frames), aux_framer("ax", "guard1")]), dict(alphabet=XE1))
 
 
 def fam_clones_static_and_reared():
